@@ -173,6 +173,23 @@ mutual
 end
 
 mutual
+  /-- symbols standing in function position (they name global functions) -/
+  def fnSyms : Expr → List String
+    | .sym _ => []
+    | .lit _ => []
+    | .call f args _ =>
+      (match f with
+        | .sym s => [s]
+        | .lit _ => []
+        | .lam _ _ => f.fnSyms
+        | .call _ _ _ => f.fnSyms) ++ fnSymss args
+    | .lam _ b => b.fnSyms
+  def fnSymss : List Expr → List String
+    | [] => []
+    | a :: as => a.fnSyms ++ fnSymss as
+end
+
+mutual
   /-- Is there a lambda that uses, in value position, a parameter of an enclosing lambda (a closure in
   the proper sense)?  `bound` = parameters of the enclosing lambdas.  This is the input class of the
   C21 finding `closure-registers`: the VM keeps lambda parameters in global registers instead of
